@@ -510,6 +510,43 @@ Proof.
   unfold Inv, norm. intros H Epc. rewrite Epc in H. destruct H as (_ & _ & Hst & _ & Hpc). rewrite Epc in Hpc.
   destruct Hpc as (_ & Hsn & Hd). rewrite Hsn in Hst. split; assumption.
 Qed.
+(* where the generator stands after each kind of action (termination measure of the bridge) *)
+Definition after_ok (a : action) (q : pc) : bool :=
+  match a, q with
+  | Forward _ _ _ _ _, PInner (Some _) | Forward _ _ _ _ _, PAfterAdj _ _ | Forward _ _ _ _ _, PAfterIcs _ _ => true
+  | EndForward, PDoRev => true | Reverse _ _ _, PAfterRev => true
+  | Copy _ _ _, PInner None | Move _ _ _, PInner None => true
+  | EndReverse, PDone => true | _, _ => false end.
+Lemma resume_pc : forall f s t a, resume f s = (t, Act a) -> after_ok a (pcv t) = true.
+Proof.
+  induction f as [|f IH]; intros s t a H; cbn [resume] in H; [discriminate|].
+  destruct s as [q n r sn]. cbn [pcv n_ r_ snaps] in H.
+  destruct q as [stype|n0 n1|n0 n1| | |];
+    repeat match type of H with
+    | context [match ?x with _ => _ end] => let E := fresh "E" in destruct x eqn:E
+    | context [if ?x then _ else _] => let E := fresh "E" in destruct x eqn:E
+    | context [let '(_, _) := ?x in _] => let E := fresh "E" in destruct x eqn:E
+    end; try discriminate; try (injection H as <- <-; reflexivity); try (apply IH in H; exact H).
+Qed.
+Definition before_ok (a : action) (q : pc) : bool :=
+  match a, q with
+  | Forward _ _ _ _ _, PInner _ | Forward _ _ _ _ _, PAfterAdj _ _ | Forward _ _ _ _ _, PAfterIcs _ _ => true
+  | EndForward, PInner _ | EndForward, PAfterAdj _ _ | EndForward, PAfterIcs _ _ => true
+  | Reverse _ _ _, PDoRev | Reverse _ _ _, PInner _ | Reverse _ _ _, PAfterAdj _ _ | Reverse _ _ _, PAfterIcs _ _ => true
+  | Copy _ _ _, PAfterRev | Move _ _ _, PAfterRev | EndReverse, PAfterRev => true
+  | _, _ => false end.
+Lemma resume_src : forall f s t a, resume f s = (t, Act a) -> before_ok a (pcv s) = true.
+Proof.
+  induction f as [|f IH]; intros s t a H; cbn [resume] in H; [discriminate|].
+  destruct s as [q n r sn]. cbn [pcv n_ r_ snaps] in H.
+  destruct q as [stype|n0 n1|n0 n1| | |];
+    repeat match type of H with
+    | context [match ?x with _ => _ end] => let E := fresh "E" in destruct x eqn:E
+    | context [if ?x then _ else _] => let E := fresh "E" in destruct x eqn:E
+    | context [let '(_, _) := ?x in _] => let E := fresh "E" in destruct x eqn:E
+    end; try discriminate; try (injection H as <- <-; reflexivity);
+    try (apply IH in H; cbn [mk pcv] in H; destruct a; cbn in *; congruence).
+Qed.
 End MIX.
 Print Assumptions step_ok.
 Print Assumptions done_total.
